@@ -26,6 +26,7 @@ import (
 	"github.com/tsawler/tabula/docx"
 	"github.com/tsawler/tabula/model"
 	"github.com/tsawler/tabula/odt"
+	"github.com/tsawler/tabula/pptx"
 	"github.com/tsawler/tabula/rag"
 
 	"verifharness/fw"
@@ -208,6 +209,43 @@ func (tableBackend) Markdown(c *fw.Ctx, id string, d *logical.Doc, r *rand.Rand,
 	return sb.String(), nil
 }
 
+// pptxBackend: the tables (and text boxes) of a generated deck, rendered through
+// tabula.Open(x.pptx).ToMarkdownWithOptions or pptx.Reader.Markdown. PresentationML
+// has neither headings nor lists of the word-processor kind: only the tables and
+// the body text are compared.
+type pptxBackend struct{}
+
+func (pptxBackend) Name() string { return "pptx" }
+func (pptxBackend) Profile(r *rand.Rand) logical.Profile {
+	return logical.Profile{MinBlocks: 1, MaxBlocks: 5, Tables: true, MaxRows: 6, MaxCols: 6, Spans: true, MultiPara: true,
+		EmptyCells: true, CellSpecials: true, Tab: true, Break: true, Sym: true, Pipes: true, Backslash: true, XMLChars: true, BlockBias: "tables", Styles: 2}
+}
+func (pptxBackend) Expect(o *MDOpts)                        { o.NoHeadings, o.NoLists = true, true }
+func (pptxBackend) UsesOptions() bool                       { return false }
+func (pptxBackend) Triggers(d *logical.Doc) map[string]bool { return nil }
+func (pptxBackend) Markdown(c *fw.Ctx, id string, d *logical.Doc, r *rand.Rand, neutral map[string]bool, o rag.MarkdownOptions) (string, error) {
+	data := ooxml.WritePptx(d, r)
+	path := filepath.Join(c.Work, strings.NewReplacer(":", "_", "#", "_", "/", "_").Replace(id)+".pptx")
+	if err := os.WriteFile(path, data, 0o644); err != nil {
+		return "", err
+	}
+	defer os.Remove(path)
+	if r.Intn(2) == 0 {
+		rd, err := pptx.Open(path)
+		if err != nil {
+			return "", err
+		}
+		defer rd.Close()
+		if r.Intn(2) == 0 {
+			rd.Text()
+			rd.Document()
+		}
+		return rd.Markdown()
+	}
+	md, _, err := tabula.Open(path).ToMarkdownWithOptions(o)
+	return md, err
+}
+
 // ragBackend: model.Document -> rag.DocumentChunker -> ChunkCollection.ToMarkdownWithOptions.
 type ragBackend struct{}
 
@@ -285,6 +323,7 @@ func Backends() []Backend {
 		FileBackend("odt", odtWriter{}, wpProfile([]string{"h", "h", "h-custom", "h-nolevelstyle", "h-mismatch", "h-nostyle"}), nil),
 		tableBackend{},
 		ragBackend{},
+		pptxBackend{},
 	}
 }
 
